@@ -10,7 +10,9 @@ import pykoop.lmi_regressors as lmi
 from .. import core, lmi_common as lc, structural as st
 
 THEOREMS = ['Pk.C12.C12_schur_I', 'Pk.C12.C12_constraint', 'Pk.C12.C12_epigraph', 'Pk.C12.C12_cost',
-            'Pk.C12.C12_tikhonov_is_edmd', 'Pk.C12.C12_twonorm_sound', 'Pk.C12.C12_nuclear_partial']
+            'Pk.C12.C12_tikhonov_is_edmd', 'Pk.C12.C12_twonorm_sound', 'Pk.C12.C12_nuclear_partial',
+            'Pk.C12.C12_dmdc_constraint', 'Pk.C12.C12_dmdc_epigraph', 'Pk.C12.C12_dmdc_cost', 'Pk.C12.C12_dmdc_defect',
+            'PkLA.dmdc_residual']
 INV = ['inv', 'pinv', 'eig', 'ldl', 'chol', 'sqrt', 'svd']
 
 
@@ -51,6 +53,44 @@ def structure_case(ctx):
     obj = float(prob.objective.function.value)
     return {'nx': nx, 'nu': nu, 'q': q, 'alpha': alpha, 'inv': inv, 'U': U, 'Z': Zm, 'H': H, 'G': G, 'c': c,
             'block': big, 'obj': obj}
+
+
+DMDC_SIG = {0.0: [(0.5, 0.5), (1.0, 1.0), (1.5, 1.5), (2.0, 2.0)],
+            16.0: [(0.0, 4.0), (3.0, 5.0), (7.5, 8.5)],
+            0.5625: [(0.0, 0.75), (1.0, 1.25)]}
+
+
+def dmdc_structure_case(ctx):
+    """LmiDmdc._create_base_problem on dyadic 'SVD factors' (not orthonormal: structure only) whose regularised singular
+    values sqrt(sigma^2/q + alpha) are exactly representable; returns the protocol line and the constraint block"""
+    rng = ctx.rng
+    rh = rng.randint(1, 2)
+    pt = rh + rng.randint(0, 1)
+    pu = rng.randint(0, 2)
+    rt = rng.randint(1, min(3, pt + pu))
+    q = 4
+    alpha = rng.choice(sorted(DMDC_SIG))
+    ab = [rng.choice(DMDC_SIG[alpha]) for _ in range(rt)]
+    St, Str = np.diag([a for a, _ in ab]), np.diag([b for _, b in ab])
+    sig_tld = np.array([2 * a for a, _ in ab])                 # sigma / sqrt(q) = a
+    ch = [rng.choice([0.5, 1.0, 2.0, 2.5]) for _ in range(rh)]
+    Sh = np.diag(ch)
+    sig_hat = np.array([2 * c for c in ch])
+    Qt, Qh = lc.dyadic(rng, (pt + pu, rt), den=2), lc.dyadic(rng, (pt, rh), den=2)
+    Zt, Zh = lc.dyadic(rng, (q, rt), den=2), lc.dyadic(rng, (q, rh), den=2)
+    prob = lmi.LmiDmdc._create_base_problem(Qt, sig_tld, Zt, Qh, sig_hat, Zh, alpha, 0)
+    Uh = lc.dyadic(rng, (rh, rh + pu), den=2)
+    W = lc.dyadic(rng, (rh, rh), den=2); W = (W + W.T) / 2
+    prob.variables['U_hat'].value = Uh
+    prob.variables['W_hat'].value = W
+    blocks = [b for b in lc.constraint_blocks(prob) if b[0].shape[0] == rh + rt]
+    if not blocks:
+        return None
+    line = (f"dmdc {rh} {rt} {pt} {pu} {q} {lc.mat_tok(W)} {lc.mat_tok(Uh[:, :rh])} {lc.mat_tok(Uh[:, rh:].reshape(rh, pu))} "
+            f"{lc.mat_tok(Qh)} {lc.mat_tok(Qt[:pt, :])} {lc.mat_tok(Qt[pt:, :].reshape(pu, rt))} {lc.mat_tok(St)} {lc.mat_tok(Str)} "
+            f"{lc.mat_tok(Sh)} {lc.mat_tok(Zt)} {lc.mat_tok(Zh)}")
+    tag = {'kind': 'dmdc', 'r_hat': rh, 'r_tld': rt, 'p_theta': pt, 'p_upsilon': pu, 'alpha': alpha}
+    return line, blocks[-1][0], float(prob.objective.function.value) - float(np.trace(W)), tag
 
 
 def check_block(s):
@@ -212,6 +252,16 @@ def run(ctx):
             W2 = lc.to_np(prob.variables['W_2'].value)
             la_lines.append(f"nuclear {nx} {p} {lc.mat_tok(W1)} {lc.mat_tok(U)} {lc.mat_tok(W2)}")
         la_meta.append((kind, big, {'kind': kind, 'nx': nx, 'p': p}))
+    # LmiDmdc base problem in SVD coordinates
+    for i in range(ctx.n(24, 300)):
+        d = dmdc_structure_case(ctx)
+        if d is None:
+            continue
+        line, big, obj_gap, tag = d
+        if abs(obj_gap) > 1e-12:
+            ctx.mismatch('LmiDmdc objective is not tr(W_hat)', tag, obj_gap, 0)
+        la_lines.append(line)
+        la_meta.append(('dmdc', big, tag))
     for (kind, s, tag), rep in zip(la_meta, lc.la_ask(la_lines)):
         ctx.count('structure:' + kind)
         if kind == 'obj':
@@ -220,7 +270,7 @@ def run(ctx):
                 ctx.mismatch('objective c - 2 tr(U G^T) + tr Z', tag, s['obj'], rep[:80])
         else:
             M = lc.parse_mat(rep)
-            ok = M is not None and M.shape == s.shape and (np.allclose(M, s, atol=1e-12) if kind == 'nuclear' else
+            ok = M is not None and M.shape == s.shape and (np.allclose(M, s, atol=1e-12) if kind in ('nuclear', 'dmdc') else
                                                            (np.allclose(M, s, atol=1e-12) or np.allclose(M, s[::-1, ::-1], atol=1e-12)))
             ctx.record_case(tag, True)
             if not ok:
